@@ -409,73 +409,107 @@ func runC13(c *Ctx) {
 				}
 				c.S.Check(okDigest, "R2", construct+".Digest", c.pos(al.Pos()), "Digest = sha512.Sum384(Context.Image)", "manifest entry digest does not derive from SHA-384 of the supplied image")
 				// Path shares a call origin with the path written by an endorsement write reached from f
-				okPath := false
-				okFrom := false
-				if pathVal != nil {
-					// the recorded value itself (or, where the entry is built in a helper, the argument it was handed)
-					idset := map[ssa.Value]bool{}
-					{
-						isl := flow.NewSlicer(c.P)
-						isl.LiftParams = 2
-						isl.Visit(pathVal, func(v ssa.Value) bool {
-							idset[v] = true
-							switch v.(type) {
-							case *ssa.Parameter, *ssa.Phi:
-								return true
+				var checkPath func(f *ssa.Function, pathVal ssa.Value, depth int) (okPath, okFrom bool)
+				checkPath = func(f *ssa.Function, pathVal ssa.Value, depth int) (okPath, okFrom bool) {
+					if pathVal != nil {
+						// the name may be chosen and the file written by one helper that returns the name: then the
+						// value that helper returns is the recorded one, and the write is looked for inside it
+						{
+							src, idx := pathVal, 0
+							if ex, ok := src.(*ssa.Extract); ok {
+								src, idx = ex.Tuple, ex.Index
 							}
-							return false
-						}, nil)
-					}
-					// the entry may be built in a helper that is handed the basename: origins are followed to the
-					// helper's call sites, and the write is looked for in the helper and in its callers
-					lsl2 := flow.NewSlicer(c.P)
-					lsl2.LiftParams = 2
-					po := map[ssa.Value]bool{}
-					for _, o := range lsl2.Origins(pathVal) {
-						if _, isCall := o.(*ssa.Call); isCall {
-							po[o] = true
-						}
-					}
-					if pc, ok := pathVal.(*ssa.Extract); ok {
-						po[pc.Tuple] = true
-					}
-					scope := []*ssa.Function{f}
-					if node := c.P.CallGraph().Nodes[f]; node != nil {
-						for _, e := range node.In {
-							if e.Site != nil && e.Site.Common().StaticCallee() == f && load.RelPkg(e.Caller.Func) == "endorse" && !c.isTestFunc(e.Caller.Func) {
-								scope = append(scope, e.Caller.Func)
+							if hc, ok := src.(*ssa.Call); ok && depth < 2 {
+								if g := hc.Call.StaticCallee(); g != nil && g != f && relevant[g] && !probes[g] && g.Blocks != nil && load.RelPkg(g) == "endorse" {
+									ei := errIndex(g.Signature)
+									all, n := true, 0
+									allFrom := true
+									for _, gb := range g.Blocks {
+										ret, ok := gb.Instrs[len(gb.Instrs)-1].(*ssa.Return)
+										if !ok || idx >= len(ret.Results) {
+											continue
+										}
+										if ei >= 0 && !isNilK(ret.Results[ei]) {
+											continue
+										}
+										n++
+										p1, p2 := checkPath(g, ret.Results[idx], depth+1)
+										all = all && p1
+										allFrom = allFrom && p2
+									}
+									if n > 0 {
+										return all, allFrom
+									}
+								}
 							}
 						}
-					}
-					var wcalls []ssa.CallInstruction
-					for _, sf := range scope {
-						wcalls = append(wcalls, callsIn(sf, func(call ssa.CallInstruction) bool {
-							cal := call.Common().StaticCallee()
-							return cal != nil && relevant[cal] && !probes[cal] && cal != f
-						})...)
-					}
-					// calls whose callee reaches an endorsement write: their string/[]string args
-					for _, call := range wcalls {
-						for _, a := range call.Common().Args {
-							ts := a.Type().String()
-							if ts != "string" && ts != "[]string" {
-								continue
-							}
-							sl.Visit(a, func(v ssa.Value) bool {
-								if po[v] {
-									okPath = true
+						// the recorded value itself (or, where the entry is built in a helper, the argument it was handed)
+						idset := map[ssa.Value]bool{}
+						{
+							isl := flow.NewSlicer(c.P)
+							isl.LiftParams = 2
+							isl.Visit(pathVal, func(v ssa.Value) bool {
+								idset[v] = true
+								switch v.(type) {
+								case *ssa.Parameter, *ssa.Phi:
+									return true
 								}
-								if ex, ok := v.(*ssa.Extract); ok && po[ex.Tuple] {
-									okPath = true
-								}
-								if idset[v] {
-									okFrom = true
-								}
-								return !(okPath && okFrom)
+								return false
 							}, nil)
 						}
+						// the entry may be built in a helper that is handed the basename: origins are followed to the
+						// helper's call sites, and the write is looked for in the helper and in its callers
+						lsl2 := flow.NewSlicer(c.P)
+						lsl2.LiftParams = 2
+						po := map[ssa.Value]bool{}
+						for _, o := range lsl2.Origins(pathVal) {
+							if _, isCall := o.(*ssa.Call); isCall {
+								po[o] = true
+							}
+						}
+						if pc, ok := pathVal.(*ssa.Extract); ok {
+							po[pc.Tuple] = true
+						}
+						scope := []*ssa.Function{f}
+						if node := c.P.CallGraph().Nodes[f]; node != nil {
+							for _, e := range node.In {
+								if e.Site != nil && e.Site.Common().StaticCallee() == f && load.RelPkg(e.Caller.Func) == "endorse" && !c.isTestFunc(e.Caller.Func) {
+									scope = append(scope, e.Caller.Func)
+								}
+							}
+						}
+						var wcalls []ssa.CallInstruction
+						for _, sf := range scope {
+							wcalls = append(wcalls, callsIn(sf, func(call ssa.CallInstruction) bool {
+								cal := call.Common().StaticCallee()
+								return cal != nil && relevant[cal] && !probes[cal] && cal != f
+							})...)
+						}
+						// calls whose callee reaches an endorsement write: their string/[]string args
+						for _, call := range wcalls {
+							for _, a := range call.Common().Args {
+								ts := a.Type().String()
+								if ts != "string" && ts != "[]string" {
+									continue
+								}
+								sl.Visit(a, func(v ssa.Value) bool {
+									if po[v] {
+										okPath = true
+									}
+									if ex, ok := v.(*ssa.Extract); ok && po[ex.Tuple] {
+										okPath = true
+									}
+									if idset[v] {
+										okFrom = true
+									}
+									return !(okPath && okFrom)
+								}, nil)
+							}
+						}
 					}
+					return okPath, okFrom
 				}
+				okPath, okFrom := checkPath(f, pathVal, 0)
 				c.S.Check(okPath, "R2", construct+".Path", c.pos(al.Pos()), "Path and the written file path share one basename origin", "manifest entry path and the path of the endorsement file written do not derive from one basename value")
 				c.S.Check(okFrom, "R2", construct+".Path is what the file path is made of", c.pos(al.Pos()), "the path written is computed from the very value recorded as Path", "the manifest entry's Path is not the value the written file's path is computed from (it is derived separately, e.g. cut back out of the full path): for a name with a directory part the entry names another file than the one written")
 			}
